@@ -8,10 +8,16 @@
   Translated code runs in `Py.M = Except Py.Exc`.  Every theorem declared directly in this namespace is
   an obligation.
 -/
+import Mathlib.Tactic.Ring
+import Mathlib.Tactic.NormNum
 import Cvss.Py
 import Cvss.Gen.Code4
 import Cvss.Model.Json
 import Cvss.Model.V4
+-- (Mathlib's style linters are not part of this project's conventions)
+set_option linter.unusedTactic false
+set_option linter.unreachableTactic false
+set_option linter.unnecessarySeqFocus false
 namespace Cvss.Props.CodeTie4
 open Cvss Cvss.Gen
 
@@ -721,5 +727,1056 @@ theorem as_json_eq (self : Code4.Self) (o : Model.V4.Obj) (sort minimal : Bool)
     · rfl
     · simp only [if_true, Except.toOption, Aux.sorted_jm]
       rfl
+
+
+/-- `final_rounding(x)` on a finite value -/
+theorem final_rounding_eq (x : Rat) : Code4.final_rounding (some x) = .ok (Model.V4.finalRounding x) := by
+  rfl
+
+/-! ### `compute_base_score`: the generated body restated in pieces -/
+
+set_option maxRecDepth 100000
+set_option linter.unusedVariables false
+
+namespace Aux
+
+
+def AVl : List (Str × Rat) := ([(c!"N", (mkRat (0) 1)), (c!"A", (mkRat (1) 10)), (c!"L", (mkRat (1) 5)), (c!"P", (mkRat (3) 10))] : List (Str × Rat))
+def PRl : List (Str × Rat) := ([(c!"N", (mkRat (0) 1)), (c!"L", (mkRat (1) 10)), (c!"H", (mkRat (1) 5))] : List (Str × Rat))
+def UIl : List (Str × Rat) := ([(c!"N", (mkRat (0) 1)), (c!"P", (mkRat (1) 10)), (c!"A", (mkRat (1) 5))] : List (Str × Rat))
+def ACl : List (Str × Rat) := ([(c!"L", (mkRat (0) 1)), (c!"H", (mkRat (1) 10))] : List (Str × Rat))
+def ATl : List (Str × Rat) := ([(c!"N", (mkRat (0) 1)), (c!"P", (mkRat (1) 10))] : List (Str × Rat))
+def VCl : List (Str × Rat) := ([(c!"H", (mkRat (0) 1)), (c!"L", (mkRat (1) 10)), (c!"N", (mkRat (1) 5))] : List (Str × Rat))
+def VIl : List (Str × Rat) := ([(c!"H", (mkRat (0) 1)), (c!"L", (mkRat (1) 10)), (c!"N", (mkRat (1) 5))] : List (Str × Rat))
+def VAl : List (Str × Rat) := ([(c!"H", (mkRat (0) 1)), (c!"L", (mkRat (1) 10)), (c!"N", (mkRat (1) 5))] : List (Str × Rat))
+def SCl : List (Str × Rat) := ([(c!"H", (mkRat (1) 10)), (c!"L", (mkRat (1) 5)), (c!"N", (mkRat (3) 10))] : List (Str × Rat))
+def SIl : List (Str × Rat) := ([(c!"S", (mkRat (0) 1)), (c!"H", (mkRat (1) 10)), (c!"L", (mkRat (1) 5)), (c!"N", (mkRat (3) 10))] : List (Str × Rat))
+def SAl : List (Str × Rat) := ([(c!"S", (mkRat (0) 1)), (c!"H", (mkRat (1) 10)), (c!"L", (mkRat (1) 5)), (c!"N", (mkRat (3) 10))] : List (Str × Rat))
+def CRl : List (Str × Rat) := ([(c!"H", (mkRat (0) 1)), (c!"M", (mkRat (1) 10)), (c!"L", (mkRat (1) 5))] : List (Str × Rat))
+def IRl : List (Str × Rat) := ([(c!"H", (mkRat (0) 1)), (c!"M", (mkRat (1) 10)), (c!"L", (mkRat (1) 5))] : List (Str × Rat))
+def ARl : List (Str × Rat) := ([(c!"H", (mkRat (0) 1)), (c!"M", (mkRat (1) 10)), (c!"L", (mkRat (1) 5))] : List (Str × Rat))
+
+def cbsStr36 (eq1_val eq2_val eq3_val eq4_val eq5_val eq6_val : Int) : Py.M (Option Str × Option Str × Option Str) :=
+  (if ((eq3_val = (1 : Int)) ∧ (eq6_val = (1 : Int))) then (do
+      let eq3eq6_next_lower_macro : Str := (List.flatten (List.map (fun val => (Py.strOInt (some val))) ([eq1_val, eq2_val, (eq3_val + (1 : Int)), eq4_val, eq5_val, eq6_val] : List Int)))
+      pure ((some eq3eq6_next_lower_macro), (none : Option Str), (none : Option Str))) else (do
+      let (eq3eq6_next_lower_macro, eq3eq6_next_lower_macro_left, eq3eq6_next_lower_macro_right) ← (if ((eq3_val = (0 : Int)) ∧ (eq6_val = (1 : Int))) then (do
+          let eq3eq6_next_lower_macro : Str := (List.flatten (List.map (fun val => (Py.strOInt (some val))) ([eq1_val, eq2_val, (eq3_val + (1 : Int)), eq4_val, eq5_val, eq6_val] : List Int)))
+          pure ((some eq3eq6_next_lower_macro), (none : Option Str), (none : Option Str))) else (do
+          let (eq3eq6_next_lower_macro, eq3eq6_next_lower_macro_left, eq3eq6_next_lower_macro_right) ← (if ((eq3_val = (1 : Int)) ∧ (eq6_val = (0 : Int))) then (do
+              let eq3eq6_next_lower_macro : Str := (List.flatten (List.map (fun val => (Py.strOInt (some val))) ([eq1_val, eq2_val, eq3_val, eq4_val, eq5_val, (eq6_val + (1 : Int))] : List Int)))
+              pure ((some eq3eq6_next_lower_macro), (none : Option Str), (none : Option Str))) else (do
+              let (eq3eq6_next_lower_macro_left, eq3eq6_next_lower_macro_right, eq3eq6_next_lower_macro) ← (if ((eq3_val = (0 : Int)) ∧ (eq6_val = (0 : Int))) then (do
+                  let eq3eq6_next_lower_macro_left : Str := (List.flatten (List.map (fun val => (Py.strOInt (some val))) ([eq1_val, eq2_val, eq3_val, eq4_val, eq5_val, (eq6_val + (1 : Int))] : List Int)))
+                  let eq3eq6_next_lower_macro_right : Str := (List.flatten (List.map (fun val => (Py.strOInt (some val))) ([eq1_val, eq2_val, (eq3_val + (1 : Int)), eq4_val, eq5_val, eq6_val] : List Int)))
+                  pure ((some eq3eq6_next_lower_macro_left), (some eq3eq6_next_lower_macro_right), (none : Option Str))) else (do
+                  let eq3eq6_next_lower_macro : Str := (List.flatten (List.map (fun val => (Py.strOInt (some val))) ([eq1_val, eq2_val, (eq3_val + (1 : Int)), eq4_val, eq5_val, (eq6_val + (1 : Int))] : List Int)))
+                  pure ((none : Option Str), (none : Option Str), (some eq3eq6_next_lower_macro))))
+              pure (eq3eq6_next_lower_macro, eq3eq6_next_lower_macro_left, eq3eq6_next_lower_macro_right)))
+          pure (eq3eq6_next_lower_macro, eq3eq6_next_lower_macro_left, eq3eq6_next_lower_macro_right)))
+      pure (eq3eq6_next_lower_macro, eq3eq6_next_lower_macro_left, eq3eq6_next_lower_macro_right)))
+
+def cbsScore36 (eq3_val eq6_val : Int) (eq3eq6_next_lower_macro eq3eq6_next_lower_macro_left eq3eq6_next_lower_macro_right : Option Str) : Py.M (Option Rat) :=
+  (if ((eq3_val = (0 : Int)) ∧ (eq6_val = (0 : Int))) then (do
+      let u17 ← Py.bound eq3eq6_next_lower_macro_left
+      let score_eq3eq6_next_lower_macro_left : Option Rat := (Py.get? u17 Gen.V4.lookupTable)
+      let u18 ← Py.bound eq3eq6_next_lower_macro_right
+      let score_eq3eq6_next_lower_macro_right : Option Rat := (Py.get? u18 Gen.V4.lookupTable)
+      let score_eq3eq6_next_lower_macro : Option Rat := (Py.fmax score_eq3eq6_next_lower_macro_left score_eq3eq6_next_lower_macro_right)
+      pure score_eq3eq6_next_lower_macro) else (do
+      let u19 ← Py.bound eq3eq6_next_lower_macro
+      let score_eq3eq6_next_lower_macro : Option Rat := (Py.get? u19 Gen.V4.lookupTable)
+      pure score_eq3eq6_next_lower_macro))
+
+def cbsProduct (eq1_maxes eq2_maxes eq3_eq6_maxes eq4_maxes eq5_maxes : List (List (Str × Str))) : Py.M (List (List (Str × Str))) :=
+  List.foldlM (fun (st : (List (List (Str × Str)))) (eq1_max : List (Str × Str)) => (do
+    let max_vectors := st
+    let max_vectors ← List.foldlM (fun (st : (List (List (Str × Str)))) (eq2_max : List (Str × Str)) => (do
+      let max_vectors := st
+      let max_vectors ← List.foldlM (fun (st : (List (List (Str × Str)))) (eq3_eq6_max : List (Str × Str)) => (do
+        let max_vectors := st
+        let max_vectors ← List.foldlM (fun (st : (List (List (Str × Str)))) (eq4_max : List (Str × Str)) => (do
+          let max_vectors := st
+          let max_vectors ← List.foldlM (fun (st : (List (List (Str × Str)))) (eq5max : List (Str × Str)) => (do
+            let max_vectors := st
+            let max_vectors : List (List (Str × Str)) := max_vectors ++ [((((eq1_max ++ eq2_max) ++ eq3_eq6_max) ++ eq4_max) ++ eq5max)]
+            pure max_vectors)) max_vectors eq5_maxes
+          pure max_vectors)) max_vectors eq4_maxes
+        pure max_vectors)) max_vectors eq3_eq6_maxes
+      pure max_vectors)) max_vectors eq2_maxes
+    pure max_vectors)) ([] : List (List (Str × Str))) eq1_maxes
+
+abbrev SState := (Option Rat) × (Option Rat) × (Option Rat) × (Option Rat) × (Option Rat) × (Option Rat) × (Option Rat) × (Option Rat) × (Option Rat) × (Option Rat) × (Option Rat) × (Option Rat) × (Option Rat) × (Option Rat) × Bool
+
+def cbsSearchBody (self : Code4.Self) : SState → List (Str × Str) → Py.M SState :=
+  fun (st : (Option Rat) × (Option Rat) × (Option Rat) × (Option Rat) × (Option Rat) × (Option Rat) × (Option Rat) × (Option Rat) × (Option Rat) × (Option Rat) × (Option Rat) × (Option Rat) × (Option Rat) × (Option Rat) × Bool) (max_vector : List (Str × Str)) => (do
+    let (severity_distance_AV, severity_distance_PR, severity_distance_UI, severity_distance_AC, severity_distance_AT, severity_distance_VC, severity_distance_VI, severity_distance_VA, severity_distance_SC, severity_distance_SI, severity_distance_SA, severity_distance_CR, severity_distance_IR, severity_distance_AR, stopped87) := st
+    if stopped87 = true then pure st else (do
+      let t31 ← Code4.m self c!"AV"
+      let t32 ← Py.getitemO t31 AVl
+      let t33 ← Py.getitem c!"AV" max_vector
+      let t34 ← Py.getitem t33 AVl
+      let severity_distance_AV : Option Rat := (some (t32 - t34))
+      let t35 ← Code4.m self c!"PR"
+      let t36 ← Py.getitemO t35 PRl
+      let t37 ← Py.getitem c!"PR" max_vector
+      let t38 ← Py.getitem t37 PRl
+      let severity_distance_PR : Option Rat := (some (t36 - t38))
+      let t39 ← Code4.m self c!"UI"
+      let t40 ← Py.getitemO t39 UIl
+      let t41 ← Py.getitem c!"UI" max_vector
+      let t42 ← Py.getitem t41 UIl
+      let severity_distance_UI : Option Rat := (some (t40 - t42))
+      let t43 ← Code4.m self c!"AC"
+      let t44 ← Py.getitemO t43 ACl
+      let t45 ← Py.getitem c!"AC" max_vector
+      let t46 ← Py.getitem t45 ACl
+      let severity_distance_AC : Option Rat := (some (t44 - t46))
+      let t47 ← Code4.m self c!"AT"
+      let t48 ← Py.getitemO t47 ATl
+      let t49 ← Py.getitem c!"AT" max_vector
+      let t50 ← Py.getitem t49 ATl
+      let severity_distance_AT : Option Rat := (some (t48 - t50))
+      let t51 ← Code4.m self c!"VC"
+      let t52 ← Py.getitemO t51 VCl
+      let t53 ← Py.getitem c!"VC" max_vector
+      let t54 ← Py.getitem t53 VCl
+      let severity_distance_VC : Option Rat := (some (t52 - t54))
+      let t55 ← Code4.m self c!"VI"
+      let t56 ← Py.getitemO t55 VIl
+      let t57 ← Py.getitem c!"VI" max_vector
+      let t58 ← Py.getitem t57 VIl
+      let severity_distance_VI : Option Rat := (some (t56 - t58))
+      let t59 ← Code4.m self c!"VA"
+      let t60 ← Py.getitemO t59 VAl
+      let t61 ← Py.getitem c!"VA" max_vector
+      let t62 ← Py.getitem t61 VAl
+      let severity_distance_VA : Option Rat := (some (t60 - t62))
+      let t63 ← Code4.m self c!"SC"
+      let t64 ← Py.getitemO t63 SCl
+      let t65 ← Py.getitem c!"SC" max_vector
+      let t66 ← Py.getitem t65 SCl
+      let severity_distance_SC : Option Rat := (some (t64 - t66))
+      let t67 ← Code4.m self c!"SI"
+      let t68 ← Py.getitemO t67 SIl
+      let t69 ← Py.getitem c!"SI" max_vector
+      let t70 ← Py.getitem t69 SIl
+      let severity_distance_SI : Option Rat := (some (t68 - t70))
+      let t71 ← Code4.m self c!"SA"
+      let t72 ← Py.getitemO t71 SAl
+      let t73 ← Py.getitem c!"SA" max_vector
+      let t74 ← Py.getitem t73 SAl
+      let severity_distance_SA : Option Rat := (some (t72 - t74))
+      let t75 ← Code4.m self c!"CR"
+      let t76 ← Py.getitemO t75 CRl
+      let t77 ← Py.getitem c!"CR" max_vector
+      let t78 ← Py.getitem t77 CRl
+      let severity_distance_CR : Option Rat := (some (t76 - t78))
+      let t79 ← Code4.m self c!"IR"
+      let t80 ← Py.getitemO t79 IRl
+      let t81 ← Py.getitem c!"IR" max_vector
+      let t82 ← Py.getitem t81 IRl
+      let severity_distance_IR : Option Rat := (some (t80 - t82))
+      let t83 ← Code4.m self c!"AR"
+      let t84 ← Py.getitemO t83 ARl
+      let t85 ← Py.getitem c!"AR" max_vector
+      let t86 ← Py.getitem t85 ARl
+      let severity_distance_AR : Option Rat := (some (t84 - t86))
+      let u102 ← Py.bound severity_distance_AV
+      let u103 ← Py.bound severity_distance_PR
+      let u104 ← Py.bound severity_distance_UI
+      let u105 ← Py.bound severity_distance_AC
+      let u106 ← Py.bound severity_distance_AT
+      let u107 ← Py.bound severity_distance_VC
+      let u108 ← Py.bound severity_distance_VI
+      let u109 ← Py.bound severity_distance_VA
+      let u110 ← Py.bound severity_distance_SC
+      let u111 ← Py.bound severity_distance_SI
+      let u112 ← Py.bound severity_distance_SA
+      let u113 ← Py.bound severity_distance_CR
+      let u114 ← Py.bound severity_distance_IR
+      let u115 ← Py.bound severity_distance_AR
+      pure (severity_distance_AV, severity_distance_PR, severity_distance_UI, severity_distance_AC, severity_distance_AT, severity_distance_VC, severity_distance_VI, severity_distance_VA, severity_distance_SC, severity_distance_SI, severity_distance_SA, severity_distance_CR, severity_distance_IR, severity_distance_AR, (decide (¬ ((List.any ([u102, u103, u104, u105, u106, u107, u108, u109, u110, u111, u112, u113, u114, u115] : List Rat) (fun met => decide (met < (((0 : Int) : Int) : Rat)))) = true))))))
+
+def cbsBlk (n : Int) (avail : Option Rat) (cur ms : Rat) : Py.M (Int × Rat × Option Rat) :=
+  (if (True ∧ (Py.fge avail (some (((0 : Int) : Int) : Rat)) = true)) then (do
+      let n_existing_lower : Int := (n + (1 : Int))
+      let t134 ← Py.div cur ms
+      let percent_to_next_eq1_severity : Rat := t134
+      let normalized_severity_eq1 : Option Rat := (Py.fmul avail (some percent_to_next_eq1_severity))
+      pure (n_existing_lower, percent_to_next_eq1_severity, normalized_severity_eq1)) else (do
+      pure (n, (((0 : Int) : Int) : Rat), (some (((0 : Int) : Int) : Rat)))))
+
+def cbsBlk5 (n : Int) (avail : Option Rat) : Py.M (Int × Int × Option Rat) :=
+  (if (True ∧ (Py.fge avail (some (((0 : Int) : Int) : Rat)) = true)) then (do
+      let n_existing_lower : Int := (n + (1 : Int))
+      let percent_to_next_eq5_severity : Int := (0 : Int)
+      let normalized_severity_eq5 : Option Rat := (Py.fmul avail (some ((percent_to_next_eq5_severity : Int) : Rat)))
+      pure (n_existing_lower, percent_to_next_eq5_severity, normalized_severity_eq5)) else (do
+      pure (n, (0 : Int), (some (((0 : Int) : Int) : Rat)))))
+
+def cbsFinal (self : Code4.Self) (value_ : Rat) (n_existing_lower : Int)
+    (normalized_severity_eq1 normalized_severity_eq2 normalized_severity_eq3eq6 normalized_severity_eq4
+      normalized_severity_eq5 : Option Rat) : Py.M Code4.Self := do
+  let t139 ← (if (n_existing_lower = (0 : Int)) then (do
+      pure (some (((0 : Int) : Int) : Rat))) else (do
+      let t138 ← Py.fdiv (Py.fadd (Py.fadd (Py.fadd (Py.fadd normalized_severity_eq1 normalized_severity_eq2) normalized_severity_eq3eq6) normalized_severity_eq4) normalized_severity_eq5) (some ((n_existing_lower : Int) : Rat))
+      pure t138))
+  let mean_distance : Option Rat := t139
+  let value_ : Option Rat := (Py.fsub (some value_) mean_distance)
+  let value_ : Option Rat := (Py.fmax (some (mkRat (0) 1)) value_)
+  let value_ : Option Rat := (Py.fmin (some (mkRat (10) 1)) value_)
+  let t140 ← Code4.final_rounding value_
+  let self : Code4.Self := { self with base_score := (some t140) }
+  pure self
+
+def cbsArith (self : Code4.Self) (value_ : Rat) (eq1_val eq2_val eq3_val eq4_val eq6_val : Int)
+    (s1 s2 s36 s4 s5 : Option Rat) (c1 c2 c36 c4 : Rat) : Py.M Code4.Self := do
+  let step_ : Rat := (mkRat (1) 10)
+  let t130 ← Py.getitemN eq1_val Gen.V4.maxSeverityEq1
+  let max_severity_eq1 : Rat := (((t130 : Int) : Rat) * step_)
+  let t131 ← Py.getitemN eq2_val Gen.V4.maxSeverityEq2
+  let max_severity_eq2 : Rat := (((t131 : Int) : Rat) * step_)
+  let t132 ← Py.getitemNN eq3_val eq6_val Gen.V4.maxSeverityEq36
+  let max_severity_eq3eq6 : Rat := (((t132 : Int) : Rat) * step_)
+  let t133 ← Py.getitemN eq4_val Gen.V4.maxSeverityEq4
+  let max_severity_eq4 : Rat := (((t133 : Int) : Rat) * step_)
+  let (n_existing_lower, percent_to_next_eq1_severity, normalized_severity_eq1) ← cbsBlk (0 : Int) (Py.fsub (some value_) s1) c1 max_severity_eq1
+  let (n_existing_lower, percent_to_next_eq2_severity, normalized_severity_eq2) ← cbsBlk n_existing_lower (Py.fsub (some value_) s2) c2 max_severity_eq2
+  let (n_existing_lower, percent_to_next_eq3eq6_severity, normalized_severity_eq3eq6) ← cbsBlk n_existing_lower (Py.fsub (some value_) s36) c36 max_severity_eq3eq6
+  let (n_existing_lower, percent_to_next_eq4_severity, normalized_severity_eq4) ← cbsBlk n_existing_lower (Py.fsub (some value_) s4) c4 max_severity_eq4
+  let (n_existing_lower, percent_to_next_eq5_severity, normalized_severity_eq5) ← cbsBlk5 n_existing_lower (Py.fsub (some value_) s5)
+  cbsFinal self value_ n_existing_lower normalized_severity_eq1 normalized_severity_eq2 normalized_severity_eq3eq6 normalized_severity_eq4 normalized_severity_eq5
+
+def cbsTail (self : Code4.Self) (value_ : Rat) (eq1_val eq2_val eq3_val eq4_val eq6_val : Int)
+    (s1 s2 s36 s4 s5 : Option Rat)
+    (severity_distance_AV severity_distance_PR severity_distance_UI severity_distance_AC severity_distance_AT
+      severity_distance_VC severity_distance_VI severity_distance_VA severity_distance_SC severity_distance_SI
+      severity_distance_SA severity_distance_CR severity_distance_IR severity_distance_AR : Option Rat) :
+    Py.M Code4.Self := do
+  let u116 ← Py.bound severity_distance_AV
+  let u117 ← Py.bound severity_distance_PR
+  let u118 ← Py.bound severity_distance_UI
+  let current_severity_distance_eq1 : Rat := ((u116 + u117) + u118)
+  let u119 ← Py.bound severity_distance_AC
+  let u120 ← Py.bound severity_distance_AT
+  let current_severity_distance_eq2 : Rat := (u119 + u120)
+  let u121 ← Py.bound severity_distance_VC
+  let u122 ← Py.bound severity_distance_VI
+  let u123 ← Py.bound severity_distance_VA
+  let u124 ← Py.bound severity_distance_CR
+  let u125 ← Py.bound severity_distance_IR
+  let u126 ← Py.bound severity_distance_AR
+  let current_severity_distance_eq3eq6 : Rat := (((((u121 + u122) + u123) + u124) + u125) + u126)
+  let u127 ← Py.bound severity_distance_SC
+  let u128 ← Py.bound severity_distance_SI
+  let u129 ← Py.bound severity_distance_SA
+  let current_severity_distance_eq4 : Rat := ((u127 + u128) + u129)
+  cbsArith self value_ eq1_val eq2_val eq3_val eq4_val eq6_val s1 s2 s36 s4 s5
+    current_severity_distance_eq1 current_severity_distance_eq2 current_severity_distance_eq3eq6 current_severity_distance_eq4
+
+def mvS (l : List Int) : Str := (List.flatten (List.map (fun val => (Py.strOInt (some val))) l))
+
+def cbsRest (self : Code4.Self) (macroVector : Str) (value_ : Rat) (eq1_val eq2_val eq3_val eq4_val eq5_val eq6_val : Int) :
+    Py.M Code4.Self := do
+  let (eq3eq6_next_lower_macro, eq3eq6_next_lower_macro_left, eq3eq6_next_lower_macro_right) ← cbsStr36 eq1_val eq2_val eq3_val eq4_val eq5_val eq6_val
+  let score_eq3eq6_next_lower_macro ← cbsScore36 eq3_val eq6_val eq3eq6_next_lower_macro eq3eq6_next_lower_macro_left eq3eq6_next_lower_macro_right
+  let t20 ← Py.charAt macroVector 0
+  let t21 ← Py.getitem t20 Gen.V4.maxEq1
+  let eq1_maxes : List (List (Str × Str)) := t21
+  let t22 ← Py.charAt macroVector 1
+  let t23 ← Py.getitem t22 Gen.V4.maxEq2
+  let eq2_maxes : List (List (Str × Str)) := t23
+  let t24 ← Py.charAt macroVector 5
+  let t25 ← Py.charAt macroVector 2
+  let t26 ← Py.getitem (t25 ++ t24) Gen.V4.maxEq36
+  let eq3_eq6_maxes : List (List (Str × Str)) := t26
+  let t27 ← Py.charAt macroVector 3
+  let t28 ← Py.getitem t27 Gen.V4.maxEq4
+  let eq4_maxes : List (List (Str × Str)) := t28
+  let t29 ← Py.charAt macroVector 4
+  let t30 ← Py.getitem t29 Gen.V4.maxEq5
+  let eq5_maxes : List (List (Str × Str)) := t30
+  let max_vectors ← cbsProduct eq1_maxes eq2_maxes eq3_eq6_maxes eq4_maxes eq5_maxes
+  let (severity_distance_AV, severity_distance_PR, severity_distance_UI, severity_distance_AC, severity_distance_AT, severity_distance_VC, severity_distance_VI, severity_distance_VA, severity_distance_SC, severity_distance_SI, severity_distance_SA, severity_distance_CR, severity_distance_IR, severity_distance_AR, stopped87) ← List.foldlM (cbsSearchBody self) ((none : Option Rat), (none : Option Rat), (none : Option Rat), (none : Option Rat), (none : Option Rat), (none : Option Rat), (none : Option Rat), (none : Option Rat), (none : Option Rat), (none : Option Rat), (none : Option Rat), (none : Option Rat), (none : Option Rat), (none : Option Rat), false) max_vectors
+  cbsTail self value_ eq1_val eq2_val eq3_val eq4_val eq6_val
+    (Py.get? (mvS [(eq1_val + (1 : Int)), eq2_val, eq3_val, eq4_val, eq5_val, eq6_val]) Gen.V4.lookupTable)
+    (Py.get? (mvS [eq1_val, (eq2_val + (1 : Int)), eq3_val, eq4_val, eq5_val, eq6_val]) Gen.V4.lookupTable)
+    score_eq3eq6_next_lower_macro
+    (Py.get? (mvS [eq1_val, eq2_val, eq3_val, (eq4_val + (1 : Int)), eq5_val, eq6_val]) Gen.V4.lookupTable)
+    (Py.get? (mvS [eq1_val, eq2_val, eq3_val, eq4_val, (eq5_val + (1 : Int)), eq6_val]) Gen.V4.lookupTable)
+    severity_distance_AV severity_distance_PR severity_distance_UI severity_distance_AC severity_distance_AT
+    severity_distance_VC severity_distance_VI severity_distance_VA severity_distance_SC severity_distance_SI
+    severity_distance_SA severity_distance_CR severity_distance_IR severity_distance_AR
+
+def cbsMain (self : Code4.Self) (macroVector : Str) : Py.M Code4.Self := do
+  let t4 ← Py.getitem macroVector Gen.V4.lookupTable
+  let t5 ← Py.charAt macroVector 0
+  let t6 ← Py.int t5
+  let t7 ← Py.charAt macroVector 1
+  let t8 ← Py.int t7
+  let t9 ← Py.charAt macroVector 2
+  let t10 ← Py.int t9
+  let t11 ← Py.charAt macroVector 3
+  let t12 ← Py.int t11
+  let t13 ← Py.charAt macroVector 4
+  let t14 ← Py.int t13
+  let t15 ← Py.charAt macroVector 5
+  let t16 ← Py.int t15
+  cbsRest self macroVector t4 t6 t8 t10 t12 t14 t16
+
+def cbsAll (self : Code4.Self) : Py.M Code4.Self := do
+  let t1 ← Code4.macroVector self
+  let l3 ← List.mapM (fun (metric : Str) => (do
+      let t2 ← Code4.m self metric
+      pure (decide (t2 = some c!"N")))) ([c!"VC", c!"VI", c!"VA", c!"SC", c!"SI", c!"SA"] : List Str)
+  if ((List.all l3 (fun b => b)) = true) then (do
+      let self : Code4.Self := { self with base_score := (some (mkRat (0) 1)) }
+      pure self) else cbsMain self t1
+
+theorem cbs_unfold (self : Code4.Self) : Code4.compute_base_score self = cbsAll self := rfl
+
+theorem fold_flat {α β : Type} (F : List β → α → Py.M (List β)) (h : α → List β)
+    (hF : ∀ acc x, F acc x = .ok (acc ++ h x)) (l : List α) (init : List β) :
+    List.foldlM F init l = .ok (init ++ l.flatMap h) := by
+  induction l generalizing init with
+  | nil => simp [List.foldlM, pure_ok]
+  | cons a l ih =>
+    rw [List.foldlM_cons, hF, ok_bind, ih]
+    simp [List.flatMap_cons, List.append_assoc]
+
+theorem flatMap_single {α β : Type} (f : α → β) (l : List α) :
+    l.flatMap (fun x => [f x]) = l.map f := by
+  induction l with
+  | nil => rfl
+  | cons a l ih => simp [List.flatMap_cons, ih]
+
+theorem cbsProduct_eq (e1 e2 e36 e4 e5 : List (List (Str × Str))) :
+    cbsProduct e1 e2 e36 e4 e5 = .ok (Model.V4.product e1 e2 e36 e4 e5) := by
+  unfold cbsProduct Model.V4.product
+  refine (fold_flat _ (fun a => e2.flatMap fun b => e36.flatMap fun c => e4.flatMap fun d =>
+    e5.map fun e => a ++ b ++ c ++ d ++ e) ?_ _ _).trans (by simp)
+  intro acc a
+  refine (fold_flat _ (fun b => e36.flatMap fun c => e4.flatMap fun d =>
+    e5.map fun e => a ++ b ++ c ++ d ++ e) ?_ _ _)
+  intro acc b
+  refine (fold_flat _ (fun c => e4.flatMap fun d =>
+    e5.map fun e => a ++ b ++ c ++ d ++ e) ?_ _ _)
+  intro acc c
+  refine (fold_flat _ (fun d =>
+    e5.map fun e => a ++ b ++ c ++ d ++ e) ?_ _ _)
+  intro acc d
+  refine (fold_flat _ (fun e => [a ++ b ++ c ++ d ++ e]) ?_ _ _).trans (by rw [flatMap_single])
+  intro acc e
+  rfl
+
+theorem strOInt_nat (n : Nat) : Py.strOInt (some (n : Int)) = natToStr n := rfl
+
+theorem mvS_map (l : List Nat) : mvS (l.map (fun (n : Nat) => (n : Int))) = Model.V4.mvKey l := by
+  unfold mvS Model.V4.mvKey
+  induction l with
+  | nil => rfl
+  | cons a l ih =>
+    simp only [List.map_cons, List.flatten_cons, List.flatMap_cons, strOInt_nat] at ih ⊢
+    rw [ih]
+
+theorem mvS6 (a b c d e f : Nat) :
+    mvS [(a : Int), (b : Int), (c : Int), (d : Int), (e : Int), (f : Int)] = Model.V4.mvKey [a, b, c, d, e, f] :=
+  mvS_map [a, b, c, d, e, f]
+
+theorem cast_succ' (n : Nat) : ((n : Int) + (1 : Int)) = ((n + 1 : Nat) : Int) := rfl
+
+/-- the model's `s36` -/
+def mS36 (e1 e2 e3 e4 e5 e6 : Nat) : Option Rat :=
+  if e3 = 1 ∧ e6 = 1 then Model.V4.lookupScore [e1, e2, e3 + 1, e4, e5, e6]
+  else if e3 = 0 ∧ e6 = 1 then Model.V4.lookupScore [e1, e2, e3 + 1, e4, e5, e6]
+  else if e3 = 1 ∧ e6 = 0 then Model.V4.lookupScore [e1, e2, e3, e4, e5, e6 + 1]
+  else if e3 = 0 ∧ e6 = 0 then
+    Model.V4.pyMaxNan (Model.V4.lookupScore [e1, e2, e3, e4, e5, e6 + 1]) (Model.V4.lookupScore [e1, e2, e3 + 1, e4, e5, e6])
+  else Model.V4.lookupScore [e1, e2, e3 + 1, e4, e5, e6 + 1]
+
+theorem fmax_eq (a b : Option Rat) : Py.fmax a b = Model.V4.pyMaxNan a b := by
+  cases a <;> cases b <;> simp only [Py.fmax, Py.fgt, Py.flt, Model.V4.pyMaxNan, gt_iff_lt, decide_eq_true_eq] <;>
+    (try split) <;> simp
+
+theorem s36_eq (e1 e2 e3 e4 e5 e6 : Nat) :
+    ∃ a b c, cbsStr36 e1 e2 e3 e4 e5 e6 = .ok (a, b, c) ∧
+      cbsScore36 e3 e6 a b c = .ok (mS36 e1 e2 e3 e4 e5 e6) := by
+  have h31 : ((e3 : Int) = 1) ↔ e3 = 1 := by omega
+  have h30 : ((e3 : Int) = 0) ↔ e3 = 0 := by omega
+  have h61 : ((e6 : Int) = 1) ↔ e6 = 1 := by omega
+  have h60 : ((e6 : Int) = 0) ↔ e6 = 0 := by omega
+  unfold cbsStr36 cbsScore36 mS36
+  simp only [h31, h30, h61, h60]
+  by_cases c1 : e3 = 1 ∧ e6 = 1
+  · refine ⟨_, _, _, by rw [if_pos c1]; rfl, ?_⟩
+    have c0 : ¬ (e3 = 0 ∧ e6 = 0) := by omega
+    simp only [if_pos c1, if_neg c0, Py.bound, ok_bind, pure_ok, Py.get?, Model.V4.lookupScore]
+    rw [cast_succ', ← mvS, mvS6]
+  by_cases c2 : e3 = 0 ∧ e6 = 1
+  · refine ⟨_, _, _, by simp only [if_neg c1, if_pos c2]; rfl, ?_⟩
+    have c0 : ¬ (e3 = 0 ∧ e6 = 0) := by omega
+    simp only [if_neg c1, if_pos c2, if_neg c0, Py.bound, ok_bind, pure_ok, Py.get?, Model.V4.lookupScore]
+    rw [cast_succ', ← mvS, mvS6]
+  by_cases c3 : e3 = 1 ∧ e6 = 0
+  · refine ⟨_, _, _, by simp only [if_neg c1, if_neg c2, if_pos c3]; rfl, ?_⟩
+    have c0 : ¬ (e3 = 0 ∧ e6 = 0) := by omega
+    simp only [if_neg c1, if_neg c2, if_pos c3, if_neg c0, Py.bound, ok_bind, pure_ok, Py.get?, Model.V4.lookupScore]
+    rw [cast_succ', ← mvS, mvS6]
+  by_cases c0 : e3 = 0 ∧ e6 = 0
+  · refine ⟨_, _, _, by simp only [if_neg c1, if_neg c2, if_neg c3, if_pos c0]; rfl, ?_⟩
+    simp only [if_neg c1, if_neg c2, if_neg c3, if_pos c0, Py.bound, ok_bind, pure_ok, Py.get?, Model.V4.lookupScore,
+      fmax_eq]
+    rw [cast_succ', cast_succ', ← mvS, ← mvS, mvS6, mvS6]
+  · refine ⟨_, _, _, by simp only [if_neg c1, if_neg c2, if_neg c3, if_neg c0]; rfl, ?_⟩
+    simp only [if_neg c1, if_neg c2, if_neg c3, if_neg c0, Py.bound, ok_bind, pure_ok, Py.get?, Model.V4.lookupScore]
+    rw [cast_succ', cast_succ', ← mvS, mvS6]
+
+theorem fdiv_some (a b : Rat) (h : b ≠ 0) : Py.fdiv (some a) (some b) = .ok (some (a / b)) := by
+  unfold Py.fdiv
+  split
+  · rename_i h1 h2 h3
+    simp at h3
+    exact absurd h3 h
+  · simp_all
+  · simp_all
+
+theorem getitemN_nat (n : Nat) (d : List (Nat × Nat)) :
+    Py.getitemN (n : Int) d = match lookup n d with
+      | some v => .ok (v : Int)
+      | none => .error .keyError := by
+  unfold Py.getitemN
+  have h : ¬ ((n : Int) < 0) := by omega
+  simp only [if_neg h, Int.toNat_natCast]
+  cases lookup n d <;> rfl
+
+theorem getitemNN_nat (i j : Nat) (d : List ((Nat × Nat) × Nat)) :
+    Py.getitemNN (i : Int) (j : Int) d = match lookup (i, j) d with
+      | some v => .ok (v : Int)
+      | none => .error .keyError := by
+  unfold Py.getitemNN
+  have h : ¬ ((i : Int) < 0 ∨ (j : Int) < 0) := by omega
+  simp only [if_neg h, Int.toNat_natCast]
+  cases lookup (i, j) d <;> rfl
+
+theorem blk_ok (n : Int) (value : Rat) (lower : Option Rat) (cur ms : Rat) :
+    match Model.V4.contribution value lower cur ms with
+    | none => ∃ e, cbsBlk n (Py.fsub (some value) lower) cur ms = .error e
+    | some k => ∃ p, cbsBlk n (Py.fsub (some value) lower) cur ms = .ok (n + (k.1 : Int), p, some k.2) := by
+  unfold cbsBlk Model.V4.contribution
+  cases lower with
+  | none =>
+    simp only [Py.fsub, Py.fge, Py.fle, Bool.false_eq_true, and_false, if_false, pure_ok]
+    exact ⟨0, by simp⟩
+  | some l =>
+    simp only [Py.fsub, Py.fge, Py.fle, true_and, decide_eq_true_eq, Int.cast_zero, ge_iff_le]
+    by_cases h : 0 ≤ value - l
+    · simp only [if_pos h, Py.div]
+      by_cases h0 : ms = 0
+      · simp only [if_pos h0]
+        exact ⟨_, rfl⟩
+      · simp only [if_neg h0, ok_bind, pure_ok, Py.fmul]
+        exact ⟨cur / ms, by simp⟩
+    · simp only [if_neg h, pure_ok]
+      exact ⟨0, by simp⟩
+
+/-- the model's `k5` -/
+def mK5 (value : Rat) (s5 : Option Rat) : Nat × Rat :=
+  match s5 with
+  | none => (0, 0)
+  | some l => if value - l ≥ 0 then (1, 0) else (0, 0)
+
+theorem blk5_ok (n : Int) (value : Rat) (lower : Option Rat) :
+    ∃ p, cbsBlk5 n (Py.fsub (some value) lower) = .ok (n + ((mK5 value lower).1 : Int), p, some (mK5 value lower).2) := by
+  unfold cbsBlk5 mK5
+  cases lower with
+  | none =>
+    simp only [Py.fsub, Py.fge, Py.fle, Bool.false_eq_true, and_false, if_false, pure_ok]
+    exact ⟨0, by simp⟩
+  | some l =>
+    simp only [Py.fsub, Py.fge, Py.fle, true_and, decide_eq_true_eq, Int.cast_zero, ge_iff_le]
+    by_cases h : 0 ≤ value - l
+    · simp only [if_pos h, pure_ok, Py.fmul]
+      exact ⟨0, by simp⟩
+    · simp only [if_neg h, pure_ok]
+      exact ⟨0, by simp⟩
+
+theorem cbsFinal_eq (self : Code4.Self) (value : Rat) (N : Nat) (x1 x2 x3 x4 x5 : Rat) :
+    cbsFinal self value (N : Int) (some x1) (some x2) (some x3) (some x4) (some x5) =
+      .ok { self with base_score := some (Model.V4.finalRounding (pyMin 10 (pyMax 0
+        (value - (if N = 0 then (0 : Rat) else (x1 + x2 + x3 + x4 + x5) / N))))) } := by
+  unfold cbsFinal
+  have e0 : (mkRat 0 1 : Rat) = 0 := by rfl
+  have e10 : (mkRat 10 1 : Rat) = 10 := by norm_num
+  have hmax : ∀ v : Rat, Py.fmax (some 0) (some v) = some (pyMax 0 v) := by
+    intro v
+    simp only [Py.fmax, Py.fgt, Py.flt, pyMax, gt_iff_lt, decide_eq_true_eq]
+    split <;> rfl
+  have hmin : ∀ v : Rat, Py.fmin (some 10) (some v) = some (pyMin 10 v) := by
+    intro v
+    simp only [Py.fmin, Py.flt, pyMin, decide_eq_true_eq]
+    split <;> rfl
+  by_cases hN : N = 0
+  · subst hN
+    simp only [Nat.cast_zero, if_true, pure_ok, ok_bind, Py.fsub, Int.cast_zero, e0, e10, hmax, hmin,
+      final_rounding_eq]
+  · have hN' : ¬ ((N : Int) = 0) := by omega
+    have hNq : (N : Rat) ≠ 0 := by
+      exact_mod_cast hN
+    simp only [if_neg hN', if_neg hN, Py.fadd, fdiv_some _ _ hNq, pure_ok, ok_bind, Py.fsub, e0, e10, hmax, hmin,
+      final_rounding_eq, Int.cast_natCast]
+
+/-- the model's arithmetic after the search -/
+def mArith (value : Rat) (e1 e2 e3 e4 e6 : Nat) (s1 s2 s36 s4 s5 : Option Rat) (c1 c2 c36 c4 : Rat) : Option Rat := do
+  let step : Rat := Model.V4.r 1 10
+  let ms1 ← lookup e1 Gen.V4.maxSeverityEq1
+  let ms2 ← lookup e2 Gen.V4.maxSeverityEq2
+  let ms36 ← lookup (e3, e6) Gen.V4.maxSeverityEq36
+  let ms4 ← lookup e4 Gen.V4.maxSeverityEq4
+  let k1 ← Model.V4.contribution value s1 c1 (ms1 * step)
+  let k2 ← Model.V4.contribution value s2 c2 (ms2 * step)
+  let k36 ← Model.V4.contribution value s36 c36 (ms36 * step)
+  let k4 ← Model.V4.contribution value s4 c4 (ms4 * step)
+  let k5 : Nat × Rat := mK5 value s5
+  let n := k1.1 + k2.1 + k36.1 + k4.1 + k5.1
+  let mean : Rat := if n = 0 then 0 else (k1.2 + k2.2 + k36.2 + k4.2 + k5.2) / n
+  let v := value - mean
+  let v := pyMax 0 v
+  let v := pyMin 10 v
+  pure (Model.V4.finalRounding v)
+
+theorem cbsArith_eq (self : Code4.Self) (value : Rat) (e1 e2 e3 e4 e6 : Nat) (s1 s2 s36 s4 s5 : Option Rat)
+    (c1 c2 c36 c4 : Rat) :
+    (cbsArith self value e1 e2 e3 e4 e6 s1 s2 s36 s4 s5 c1 c2 c36 c4).toOption.map (fun x => x.base_score) =
+      (mArith value e1 e2 e3 e4 e6 s1 s2 s36 s4 s5 c1 c2 c36 c4).map some := by
+  unfold cbsArith mArith
+  simp only [getitemN_nat, getitemNN_nat, Model.V4.r, Option.bind_eq_bind, Option.pure_def]
+  cases lookup e1 Gen.V4.maxSeverityEq1 with
+  | none => rfl
+  | some ms1 =>
+  cases lookup e2 Gen.V4.maxSeverityEq2 with
+  | none => rfl
+  | some ms2 =>
+  cases lookup (e3, e6) Gen.V4.maxSeverityEq36 with
+  | none => rfl
+  | some ms36 =>
+  cases lookup e4 Gen.V4.maxSeverityEq4 with
+  | none => rfl
+  | some ms4 =>
+  simp only [ok_bind, Option.bind_some, Int.cast_natCast]
+  have b1 := blk_ok 0 value s1 c1 ((ms1 : Rat) * mkRat 1 10)
+  cases hk1 : Model.V4.contribution value s1 c1 ((ms1 : Rat) * mkRat 1 10) with
+  | none =>
+    rw [hk1] at b1
+    obtain ⟨e, he⟩ := b1
+    rw [he]
+    rfl
+  | some k1 =>
+  rw [hk1] at b1
+  obtain ⟨p1, hp1⟩ := b1
+  rw [hp1]
+  simp only [ok_bind, Option.bind_some]
+  have b2 := blk_ok (0 + (k1.1 : Int)) value s2 c2 ((ms2 : Rat) * mkRat 1 10)
+  cases hk2 : Model.V4.contribution value s2 c2 ((ms2 : Rat) * mkRat 1 10) with
+  | none =>
+    rw [hk2] at b2
+    obtain ⟨e, he⟩ := b2
+    rw [he]
+    rfl
+  | some k2 =>
+  rw [hk2] at b2
+  obtain ⟨p2, hp2⟩ := b2
+  rw [hp2]
+  simp only [ok_bind, Option.bind_some]
+  have b3 := blk_ok (0 + (k1.1 : Int) + (k2.1 : Int)) value s36 c36 ((ms36 : Rat) * mkRat 1 10)
+  cases hk3 : Model.V4.contribution value s36 c36 ((ms36 : Rat) * mkRat 1 10) with
+  | none =>
+    rw [hk3] at b3
+    obtain ⟨e, he⟩ := b3
+    rw [he]
+    rfl
+  | some k3 =>
+  rw [hk3] at b3
+  obtain ⟨p3, hp3⟩ := b3
+  rw [hp3]
+  simp only [ok_bind, Option.bind_some]
+  have b4 := blk_ok (0 + (k1.1 : Int) + (k2.1 : Int) + (k3.1 : Int)) value s4 c4 ((ms4 : Rat) * mkRat 1 10)
+  cases hk4 : Model.V4.contribution value s4 c4 ((ms4 : Rat) * mkRat 1 10) with
+  | none =>
+    rw [hk4] at b4
+    obtain ⟨e, he⟩ := b4
+    rw [he]
+    rfl
+  | some k4 =>
+  rw [hk4] at b4
+  obtain ⟨p4, hp4⟩ := b4
+  rw [hp4]
+  simp only [ok_bind, Option.bind_some]
+  obtain ⟨p5, hp5⟩ := blk5_ok (0 + (k1.1 : Int) + (k2.1 : Int) + (k3.1 : Int) + (k4.1 : Int)) value s5
+  rw [hp5]
+  simp only [ok_bind]
+  have hn : (0 + (k1.1 : Int) + (k2.1 : Int) + (k3.1 : Int) + (k4.1 : Int) + ((mK5 value s5).1 : Int)) =
+      ((k1.1 + k2.1 + k3.1 + k4.1 + (mK5 value s5).1 : Nat) : Int) := by
+    push_cast
+    ring
+  rw [hn, cbsFinal_eq]
+  rfl
+
+/-- reading the 14 variables after the loop -/
+def rv (v1 v2 v3 v4 v5 v6 v7 v8 v9 v10 v11 v12 v13 v14 : Option Rat) : Option (List Rat) :=
+  v1.bind fun d1 => v2.bind fun d2 => v3.bind fun d3 => v4.bind fun d4 => v5.bind fun d5 =>
+  v6.bind fun d6 => v7.bind fun d7 => v8.bind fun d8 => v9.bind fun d9 => v10.bind fun d10 =>
+  v11.bind fun d11 => v12.bind fun d12 => v13.bind fun d13 => v14.bind fun d14 =>
+    some [d1, d2, d3, d4, d5, d6, d7, d8, d9, d10, d11, d12, d13, d14]
+
+/-- the model after the search -/
+def mTail (value : Rat) (e1 e2 e3 e4 e6 : Nat) (s1 s2 s36 s4 s5 : Option Rat) (d : List Rat) : Option Rat :=
+  match d with
+  | [dAV, dPR, dUI, dAC, dAT, dVC, dVI, dVA, dSC, dSI, dSA, dCR, dIR, dAR] =>
+    mArith value e1 e2 e3 e4 e6 s1 s2 s36 s4 s5 (dAV + dPR + dUI) (dAC + dAT)
+      (dVC + dVI + dVA + dCR + dIR + dAR) (dSC + dSI + dSA)
+  | _ => none
+
+theorem cbsTail_eq (self : Code4.Self) (value : Rat) (e1 e2 e3 e4 e6 : Nat) (s1 s2 s36 s4 s5 : Option Rat)
+    (v1 v2 v3 v4 v5 v6 v7 v8 v9 v10 v11 v12 v13 v14 : Option Rat) :
+    (cbsTail self value e1 e2 e3 e4 e6 s1 s2 s36 s4 s5 v1 v2 v3 v4 v5 v6 v7 v8 v9 v10 v11 v12 v13 v14).toOption.map
+        (fun x => x.base_score) =
+      (rv v1 v2 v3 v4 v5 v6 v7 v8 v9 v10 v11 v12 v13 v14).bind
+        (fun d => (mTail value e1 e2 e3 e4 e6 s1 s2 s36 s4 s5 d).map some) := by
+  cases v1 with
+  | none => rfl
+  | some d1 =>
+  cases v2 with
+  | none => rfl
+  | some d2 =>
+  cases v3 with
+  | none => rfl
+  | some d3 =>
+  cases v4 with
+  | none => rfl
+  | some d4 =>
+  cases v5 with
+  | none => rfl
+  | some d5 =>
+  cases v6 with
+  | none => rfl
+  | some d6 =>
+  cases v7 with
+  | none => rfl
+  | some d7 =>
+  cases v8 with
+  | none => rfl
+  | some d8 =>
+  cases v9 <;> cases v10 <;> cases v11 <;> cases v12 <;> cases v13 <;> cases v14 <;> try rfl
+  exact cbsArith_eq self value e1 e2 e3 e4 e6 s1 s2 s36 s4 s5 _ _ _ _
+
+/-- one severity distance, with the metric's own table -/
+def dW (m : Model.MMap) (mv : List (Str × Str)) (k : Str) (tbl : List (Str × Rat)) : Option Rat :=
+  (Model.V4.mEff m k).bind fun cur => (lookup cur tbl).bind fun lc => (lookup k mv).bind fun v =>
+    (lookup v tbl).bind fun lm => some (lc - lm)
+
+def distBlock (self : Code4.Self) (k : Str) (tbl : List (Str × Rat)) (mv : List (Str × Str)) : Py.M Rat := do
+  let t31 ← Code4.m self k
+  let t32 ← Py.getitemO t31 tbl
+  let t33 ← Py.getitem k mv
+  let t34 ← Py.getitem t33 tbl
+  pure (t32 - t34)
+
+theorem distBlock_eq (self : Code4.Self) (k : Str) (tbl : List (Str × Rat)) (mv : List (Str × Str)) :
+    (distBlock self k tbl mv).toOption = dW self.metrics mv k tbl := by
+  unfold distBlock dW
+  simp only [m_eq, ok_bind]
+  cases Model.V4.mEff self.metrics k with
+  | none => rfl
+  | some cur =>
+    simp only [Py.getitemO, Py.getitem, Option.bind_some]
+    cases lookup cur tbl with
+    | none => rfl
+    | some lc =>
+      simp only [ok_bind, Option.bind_some]
+      cases lookup k mv with
+      | none => rfl
+      | some v =>
+        simp only [ok_bind, Option.bind_some]
+        cases lookup v tbl with
+        | none => rfl
+        | some lm => rfl
+
+theorem distance_dW (m : Model.MMap) (mv : List (Str × Str)) (k : Str) (tbl : List (Str × Rat))
+    (h : lookup k Code4.levels = some tbl) : Model.V4.distance m mv k = dW m mv k tbl := by
+  unfold Model.V4.distance dW
+  rw [← levels_tables_eq, h]
+  rfl
+
+def searchNice (self : Code4.Self) (mv : List (Str × Str)) : Py.M SState := do
+  let dAV ← distBlock self c!"AV" AVl mv
+  let dPR ← distBlock self c!"PR" PRl mv
+  let dUI ← distBlock self c!"UI" UIl mv
+  let dAC ← distBlock self c!"AC" ACl mv
+  let dAT ← distBlock self c!"AT" ATl mv
+  let dVC ← distBlock self c!"VC" VCl mv
+  let dVI ← distBlock self c!"VI" VIl mv
+  let dVA ← distBlock self c!"VA" VAl mv
+  let dSC ← distBlock self c!"SC" SCl mv
+  let dSI ← distBlock self c!"SI" SIl mv
+  let dSA ← distBlock self c!"SA" SAl mv
+  let dCR ← distBlock self c!"CR" CRl mv
+  let dIR ← distBlock self c!"IR" IRl mv
+  let dAR ← distBlock self c!"AR" ARl mv
+  pure (some dAV, some dPR, some dUI, some dAC, some dAT, some dVC, some dVI, some dVA, some dSC, some dSI,
+    some dSA, some dCR, some dIR, some dAR,
+    (decide (¬ ((List.any ([dAV, dPR, dUI, dAC, dAT, dVC, dVI, dVA, dSC, dSI, dSA, dCR, dIR, dAR] : List Rat) (fun met => decide (met < (((0 : Int) : Int) : Rat)))) = true))))
+
+theorem body_nice (self : Code4.Self) (mv : List (Str × Str))
+    (v1 v2 v3 v4 v5 v6 v7 v8 v9 v10 v11 v12 v13 v14 : Option Rat) :
+    cbsSearchBody self (v1, v2, v3, v4, v5, v6, v7, v8, v9, v10, v11, v12, v13, v14, false) mv =
+      searchNice self mv := by
+  unfold cbsSearchBody searchNice distBlock
+  simp only [Bool.false_eq_true, if_false]
+  simp only [Py.bound, ok_bind]
+  simp only [pure_ok]
+  simp only [bind_assoc, ok_bind]
+
+theorem body_stop (self : Code4.Self) (mv : List (Str × Str))
+    (v1 v2 v3 v4 v5 v6 v7 v8 v9 v10 v11 v12 v13 v14 : Option Rat) :
+    cbsSearchBody self (v1, v2, v3, v4, v5, v6, v7, v8, v9, v10, v11, v12, v13, v14, true) mv =
+      .ok (v1, v2, v3, v4, v5, v6, v7, v8, v9, v10, v11, v12, v13, v14, true) := rfl
+
+/-- the new loop state after an iteration that computed the distance list `d` -/
+def stOf (d : List Rat) : Option SState :=
+  match d with
+  | [d1, d2, d3, d4, d5, d6, d7, d8, d9, d10, d11, d12, d13, d14] =>
+    some (some d1, some d2, some d3, some d4, some d5, some d6, some d7, some d8, some d9, some d10, some d11,
+      some d12, some d13, some d14, !(d.any (· < 0)))
+  | _ => none
+
+def bind14 {β : Type} (o1 o2 o3 o4 o5 o6 o7 o8 o9 o10 o11 o12 o13 o14 : Option Rat)
+    (F : Rat → Rat → Rat → Rat → Rat → Rat → Rat → Rat → Rat → Rat → Rat → Rat → Rat → Rat → Option β) : Option β :=
+  o1.bind fun d1 => o2.bind fun d2 => o3.bind fun d3 => o4.bind fun d4 => o5.bind fun d5 =>
+  o6.bind fun d6 => o7.bind fun d7 => o8.bind fun d8 => o9.bind fun d9 => o10.bind fun d10 =>
+  o11.bind fun d11 => o12.bind fun d12 => o13.bind fun d13 => o14.bind fun d14 =>
+    F d1 d2 d3 d4 d5 d6 d7 d8 d9 d10 d11 d12 d13 d14
+
+theorem mapM14 {α : Type} (f : α → Option Rat) (k1 k2 k3 k4 k5 k6 k7 k8 k9 k10 k11 k12 k13 k14 : α) :
+    [k1, k2, k3, k4, k5, k6, k7, k8, k9, k10, k11, k12, k13, k14].mapM f =
+      bind14 (f k1) (f k2) (f k3) (f k4) (f k5) (f k6) (f k7) (f k8) (f k9) (f k10) (f k11) (f k12) (f k13) (f k14)
+        (fun d1 d2 d3 d4 d5 d6 d7 d8 d9 d10 d11 d12 d13 d14 =>
+          some [d1, d2, d3, d4, d5, d6, d7, d8, d9, d10, d11, d12, d13, d14]) := by
+  simp only [List.mapM_cons, List.mapM_nil]
+  generalize f k1 = o1; generalize f k2 = o2; generalize f k3 = o3; generalize f k4 = o4
+  generalize f k5 = o5; generalize f k6 = o6; generalize f k7 = o7; generalize f k8 = o8
+  generalize f k9 = o9; generalize f k10 = o10; generalize f k11 = o11; generalize f k12 = o12
+  generalize f k13 = o13; generalize f k14 = o14
+  revert o1 o2 o3 o4 o5 o6 o7 o8 o9 o10 o11 o12 o13 o14
+  iterate 14 (intro o; cases o; (· intros; rfl))
+  rfl
+
+theorem nice14 {β : Type} (x1 x2 x3 x4 x5 x6 x7 x8 x9 x10 x11 x12 x13 x14 : Py.M Rat)
+    (F : Rat → Rat → Rat → Rat → Rat → Rat → Rat → Rat → Rat → Rat → Rat → Rat → Rat → Rat → β) :
+    (x1 >>= fun d1 => x2 >>= fun d2 => x3 >>= fun d3 => x4 >>= fun d4 => x5 >>= fun d5 =>
+      x6 >>= fun d6 => x7 >>= fun d7 => x8 >>= fun d8 => x9 >>= fun d9 => x10 >>= fun d10 =>
+      x11 >>= fun d11 => x12 >>= fun d12 => x13 >>= fun d13 => x14 >>= fun d14 =>
+        (pure (F d1 d2 d3 d4 d5 d6 d7 d8 d9 d10 d11 d12 d13 d14) : Py.M β)).toOption =
+      bind14 x1.toOption x2.toOption x3.toOption x4.toOption x5.toOption x6.toOption x7.toOption x8.toOption
+        x9.toOption x10.toOption x11.toOption x12.toOption x13.toOption x14.toOption
+        (fun d1 d2 d3 d4 d5 d6 d7 d8 d9 d10 d11 d12 d13 d14 => some (F d1 d2 d3 d4 d5 d6 d7 d8 d9 d10 d11 d12 d13 d14)) := by
+  revert x1 x2 x3 x4 x5 x6 x7 x8 x9 x10 x11 x12 x13 x14
+  iterate 14 (intro x; cases x; (· intros; rfl))
+  rfl
+
+theorem bind14_len (o1 o2 o3 o4 o5 o6 o7 o8 o9 o10 o11 o12 o13 o14 : Option Rat) (d : List Rat) :
+    bind14 o1 o2 o3 o4 o5 o6 o7 o8 o9 o10 o11 o12 o13 o14
+        (fun d1 d2 d3 d4 d5 d6 d7 d8 d9 d10 d11 d12 d13 d14 =>
+          some [d1, d2, d3, d4, d5, d6, d7, d8, d9, d10, d11, d12, d13, d14]) = some d →
+    ∃ d1 d2 d3 d4 d5 d6 d7 d8 d9 d10 d11 d12 d13 d14,
+      d = [d1, d2, d3, d4, d5, d6, d7, d8, d9, d10, d11, d12, d13, d14] := by
+  revert o1 o2 o3 o4 o5 o6 o7 o8 o9 o10 o11 o12 o13 o14
+  iterate 14 (intro o; cases o; (· intros; rename_i h; cases h))
+  intro h
+  simp only [bind14, Option.bind_some, Option.some.injEq] at h
+  exact ⟨_, _, _, _, _, _, _, _, _, _, _, _, _, _, h.symm⟩
+
+def dAll (m : Model.MMap) (mv : List (Str × Str)) : Option (List Rat) :=
+  bind14 (dW m mv c!"AV" AVl) (dW m mv c!"PR" PRl) (dW m mv c!"UI" UIl) (dW m mv c!"AC" ACl) (dW m mv c!"AT" ATl)
+    (dW m mv c!"VC" VCl) (dW m mv c!"VI" VIl) (dW m mv c!"VA" VAl) (dW m mv c!"SC" SCl) (dW m mv c!"SI" SIl)
+    (dW m mv c!"SA" SAl) (dW m mv c!"CR" CRl) (dW m mv c!"IR" IRl) (dW m mv c!"AR" ARl)
+    (fun d1 d2 d3 d4 d5 d6 d7 d8 d9 d10 d11 d12 d13 d14 =>
+      some [d1, d2, d3, d4, d5, d6, d7, d8, d9, d10, d11, d12, d13, d14])
+
+theorem distances_dAll (m : Model.MMap) (mv : List (Str × Str)) : Model.V4.distances m mv = dAll m mv := by
+  unfold Model.V4.distances Model.V4.distMetrics dAll
+  rw [mapM14]
+  rw [distance_dW m mv c!"AV" AVl rfl, distance_dW m mv c!"PR" PRl rfl, distance_dW m mv c!"UI" UIl rfl,
+    distance_dW m mv c!"AC" ACl rfl, distance_dW m mv c!"AT" ATl rfl, distance_dW m mv c!"VC" VCl rfl,
+    distance_dW m mv c!"VI" VIl rfl, distance_dW m mv c!"VA" VAl rfl, distance_dW m mv c!"SC" SCl rfl,
+    distance_dW m mv c!"SI" SIl rfl, distance_dW m mv c!"SA" SAl rfl, distance_dW m mv c!"CR" CRl rfl,
+    distance_dW m mv c!"IR" IRl rfl, distance_dW m mv c!"AR" ARl rfl]
+
+theorem searchNice_eq (self : Code4.Self) (mv : List (Str × Str)) :
+    (searchNice self mv).toOption = (dAll self.metrics mv).bind stOf := by
+  unfold searchNice dAll
+  rw [nice14]
+  simp only [distBlock_eq]
+  generalize dW self.metrics mv c!"AV" AVl = o1; generalize dW self.metrics mv c!"PR" PRl = o2
+  generalize dW self.metrics mv c!"UI" UIl = o3; generalize dW self.metrics mv c!"AC" ACl = o4
+  generalize dW self.metrics mv c!"AT" ATl = o5; generalize dW self.metrics mv c!"VC" VCl = o6
+  generalize dW self.metrics mv c!"VI" VIl = o7; generalize dW self.metrics mv c!"VA" VAl = o8
+  generalize dW self.metrics mv c!"SC" SCl = o9; generalize dW self.metrics mv c!"SI" SIl = o10
+  generalize dW self.metrics mv c!"SA" SAl = o11; generalize dW self.metrics mv c!"CR" CRl = o12
+  generalize dW self.metrics mv c!"IR" IRl = o13; generalize dW self.metrics mv c!"AR" ARl = o14
+  revert o1 o2 o3 o4 o5 o6 o7 o8 o9 o10 o11 o12 o13 o14
+  iterate 14 (intro o; cases o; (· intros; rfl))
+  simp only [bind14, stOf, Option.bind_some, Int.cast_zero, decide_not, Bool.decide_eq_true]
+
+def rvS (st : SState) : Option (List Rat) :=
+  match st with
+  | (v1, v2, v3, v4, v5, v6, v7, v8, v9, v10, v11, v12, v13, v14, _) =>
+    rv v1 v2 v3 v4 v5 v6 v7 v8 v9 v10 v11 v12 v13 v14
+
+def stoppedS (st : SState) : Bool :=
+  match st with
+  | (_, _, _, _, _, _, _, _, _, _, _, _, _, _, b) => b
+
+theorem toOption_ok {ε α : Type} (a : α) : (Except.ok a : Except ε α).toOption = some a := rfl
+
+theorem search_cons (m : Model.MMap) (mv : List (Str × Str)) (rest : List (List (Str × Str)))
+    (last : Option (List Rat)) :
+    Model.V4.search m (mv :: rest) last =
+      match Model.V4.distances m mv with
+      | none => none
+      | some d => if d.any (· < 0) then Model.V4.search m rest (some d) else some d := rfl
+
+theorem search_fold (self : Code4.Self) (l : List (List (Str × Str))) (st : SState) :
+    (List.foldlM (cbsSearchBody self) st l).toOption.bind rvS =
+      if stoppedS st = true then rvS st else Model.V4.search self.metrics l (rvS st) := by
+  induction l generalizing st with
+  | nil =>
+    obtain ⟨v1, v2, v3, v4, v5, v6, v7, v8, v9, v10, v11, v12, v13, v14, b⟩ := st
+    cases b <;> rfl
+  | cons mv rest ih =>
+    obtain ⟨v1, v2, v3, v4, v5, v6, v7, v8, v9, v10, v11, v12, v13, v14, b⟩ := st
+    rw [List.foldlM_cons, toOption_bind]
+    cases b with
+    | true =>
+      rw [body_stop, toOption_ok, Option.bind_some]
+      exact ih _
+    | false =>
+      rw [body_nice, searchNice_eq, ← distances_dAll, search_cons]
+      cases hd : Model.V4.distances self.metrics mv with
+      | none => rfl
+      | some d =>
+        have hd' := hd
+        rw [distances_dAll] at hd'
+        obtain ⟨d1, d2, d3, d4, d5, d6, d7, d8, d9, d10, d11, d12, d13, d14, rfl⟩ := bind14_len _ _ _ _ _ _ _ _ _ _ _ _ _ _ _ hd'
+        simp only [Option.bind_some, stOf]
+        rw [ih]
+        cases hany : List.any [d1, d2, d3, d4, d5, d6, d7, d8, d9, d10, d11, d12, d13, d14] (· < 0) <;> rfl
+
+/-- the model once the macro vector digits and the table value are known -/
+def mRest (m : Model.MMap) (value : Rat) (e1 e2 e3 e4 e5 e6 : Nat) : Option Rat := do
+  let s1 := Model.V4.lookupScore [e1 + 1, e2, e3, e4, e5, e6]
+  let s2 := Model.V4.lookupScore [e1, e2 + 1, e3, e4, e5, e6]
+  let s36 := mS36 e1 e2 e3 e4 e5 e6
+  let s4 := Model.V4.lookupScore [e1, e2, e3, e4 + 1, e5, e6]
+  let s5 := Model.V4.lookupScore [e1, e2, e3, e4, e5 + 1, e6]
+  let m1 ← lookup (natToStr e1) Gen.V4.maxEq1
+  let m2 ← lookup (natToStr e2) Gen.V4.maxEq2
+  let m36 ← lookup (natToStr e3 ++ natToStr e6) Gen.V4.maxEq36
+  let m4 ← lookup (natToStr e4) Gen.V4.maxEq4
+  let m5 ← lookup (natToStr e5) Gen.V4.maxEq5
+  let d ← Model.V4.search m (Model.V4.product m1 m2 m36 m4 m5) none
+  mTail value e1 e2 e3 e4 e6 s1 s2 s36 s4 s5 d
+
+theorem baseScore_unfold (m : Model.MMap) :
+    Model.V4.baseScore m =
+      if [c!"VC", c!"VI", c!"VA", c!"SC", c!"SI", c!"SA"].all (fun k => Model.V4.mEff m k = some c!"N") then some 0
+      else (Model.V4.macroVector m).bind fun mv => (Model.V4.lookupScore mv).bind fun value =>
+        match mv with
+        | [e1, e2, e3, e4, e5, e6] => mRest m value e1 e2 e3 e4 e5 e6
+        | _ => none := rfl
+
+theorem macroVector_shape (m : Model.MMap) (d : List Nat) (h : Model.V4.macroVector m = some d) :
+    ∃ e1 e2 e3 e4 e5 e6, d = [e1, e2, e3, e4, e5, e6] ∧ e1 ≤ 2 ∧ e2 ≤ 2 ∧ e3 ≤ 2 ∧ e4 ≤ 2 ∧ e5 ≤ 2 ∧ e6 ≤ 2 := by
+  unfold Model.V4.macroVector at h
+  simp only [] at h
+  split at h
+  · exact absurd h (by simp)
+  · rename_i e5 heq
+    injection h with h
+    subst h
+    refine ⟨_, _, _, _, _, _, rfl, ?_, ?_, ?_, ?_, ?_, ?_⟩
+    · split
+      · omega
+      · split <;> omega
+    · split <;> omega
+    · split
+      · omega
+      · split <;> omega
+    · split
+      · omega
+      · split <;> omega
+    · split at heq
+      · injection heq with heq; omega
+      · split at heq
+        · injection heq with heq; omega
+        · split at heq
+          · injection heq with heq; omega
+          · exact absurd heq (by simp)
+    · split <;> omega
+
+theorem natToStr_small (n : Nat) (h : n ≤ 2) : natToStr n = [Char.ofNat (48 + n)] := by
+  rcases n with _ | _ | _ | n
+  · decide
+  · decide
+  · decide
+  · omega
+
+theorem int_small (n : Nat) (h : n ≤ 2) : Py.int (natToStr n) = .ok (n : Int) := by
+  rcases n with _ | _ | _ | n
+  · decide
+  · decide
+  · decide
+  · omega
+
+theorem charAt_mvKey (e1 e2 e3 e4 e5 e6 : Nat) (h1 : e1 ≤ 2) (h2 : e2 ≤ 2) (h3 : e3 ≤ 2) (h4 : e4 ≤ 2)
+    (h5 : e5 ≤ 2) (h6 : e6 ≤ 2) :
+    Py.charAt (Model.V4.mvKey [e1, e2, e3, e4, e5, e6]) 0 = .ok (natToStr e1) ∧
+    Py.charAt (Model.V4.mvKey [e1, e2, e3, e4, e5, e6]) 1 = .ok (natToStr e2) ∧
+    Py.charAt (Model.V4.mvKey [e1, e2, e3, e4, e5, e6]) 2 = .ok (natToStr e3) ∧
+    Py.charAt (Model.V4.mvKey [e1, e2, e3, e4, e5, e6]) 3 = .ok (natToStr e4) ∧
+    Py.charAt (Model.V4.mvKey [e1, e2, e3, e4, e5, e6]) 4 = .ok (natToStr e5) ∧
+    Py.charAt (Model.V4.mvKey [e1, e2, e3, e4, e5, e6]) 5 = .ok (natToStr e6) := by
+  simp only [Model.V4.mvKey, List.flatMap_cons, List.flatMap_nil, natToStr_small _ h1, natToStr_small _ h2,
+    natToStr_small _ h3, natToStr_small _ h4, natToStr_small _ h5, natToStr_small _ h6]
+  exact ⟨rfl, rfl, rfl, rfl, rfl, rfl⟩
+
+theorem lookup_mem_keys {β : Type} (k : Str) (l : List (Str × β)) (v : β) (h : lookup k l = some v) :
+    k ∈ keys l := by
+  induction l with
+  | nil => simp [lookup] at h
+  | cons p r ih =>
+    obtain ⟨a, b⟩ := p
+    simp only [lookup] at h
+    by_cases hk : k = a
+    · simp [keys, hk]
+    · simp only [hk, if_false] at h
+      simp only [keys, List.map_cons, List.mem_cons]
+      exact Or.inr (ih h)
+
+theorem table_keys_noN : ∀ k ∈ keys Gen.V4.lookupTable, ¬ 'N' ∈ k := by
+  decide +kernel
+
+theorem lookup_N (k : Str) (h : 'N' ∈ k) : lookup k Gen.V4.lookupTable = none := by
+  cases hl : lookup k Gen.V4.lookupTable with
+  | none => rfl
+  | some v => exact absurd h (table_keys_noN k (lookup_mem_keys k _ v hl))
+
+def initS : SState :=
+  ((none : Option Rat), (none : Option Rat), (none : Option Rat), (none : Option Rat), (none : Option Rat), (none : Option Rat), (none : Option Rat), (none : Option Rat), (none : Option Rat), (none : Option Rat), (none : Option Rat), (none : Option Rat), (none : Option Rat), (none : Option Rat), false)
+
+theorem search_then (self : Code4.Self) (maxvs : List (List (Str × Str))) (K : SState → Py.M Code4.Self)
+    (G : List Rat → Option (Option Rat))
+    (hK : ∀ st, ((K st).toOption).map (fun x => x.base_score) = (rvS st).bind G) :
+    ((List.foldlM (cbsSearchBody self) initS maxvs >>= K).toOption).map (fun x => x.base_score) =
+      (Model.V4.search self.metrics maxvs none).bind G := by
+  have h := search_fold self maxvs initS
+  have h1 : stoppedS initS = false := rfl
+  have h2 : rvS initS = none := rfl
+  rw [h1, h2] at h
+  simp only [Bool.false_eq_true, if_false] at h
+  rw [← h, toOption_bind]
+  cases (List.foldlM (cbsSearchBody self) initS maxvs).toOption with
+  | none => rfl
+  | some st => exact hK st
+
+theorem cbsRest_eq (self : Code4.Self) (value : Rat) (e1 e2 e3 e4 e5 e6 : Nat) (h1 : e1 ≤ 2) (h2 : e2 ≤ 2)
+    (h3 : e3 ≤ 2) (h4 : e4 ≤ 2) (h5 : e5 ≤ 2) (h6 : e6 ≤ 2) :
+    (cbsRest self (Model.V4.mvKey [e1, e2, e3, e4, e5, e6]) value e1 e2 e3 e4 e5 e6).toOption.map
+        (fun x => x.base_score) =
+      (mRest self.metrics value e1 e2 e3 e4 e5 e6).map some := by
+  unfold cbsRest mRest
+  obtain ⟨a, b, c, hs1, hs2⟩ := s36_eq e1 e2 e3 e4 e5 e6
+  obtain ⟨c0, c1, c2, c3, c4, c5⟩ := charAt_mvKey e1 e2 e3 e4 e5 e6 h1 h2 h3 h4 h5 h6
+  rw [hs1]
+  simp only [ok_bind]
+  rw [hs2]
+  simp only [ok_bind, c0, c1, c2, c3, c4, c5, Py.getitem, Option.bind_eq_bind]
+  cases lookup (natToStr e1) Gen.V4.maxEq1 with
+  | none => rfl
+  | some m1 =>
+  cases lookup (natToStr e2) Gen.V4.maxEq2 with
+  | none => rfl
+  | some m2 =>
+  cases lookup (natToStr e3 ++ natToStr e6) Gen.V4.maxEq36 with
+  | none => rfl
+  | some m36 =>
+  cases lookup (natToStr e4) Gen.V4.maxEq4 with
+  | none => rfl
+  | some m4 =>
+  cases lookup (natToStr e5) Gen.V4.maxEq5 with
+  | none => rfl
+  | some m5 =>
+  simp only [ok_bind, Option.bind_some, cbsProduct_eq, Option.map_bind]
+  refine search_then self _ _ _ ?_
+  intro st
+  obtain ⟨v1, v2, v3, v4, v5, v6, v7, v8, v9, v10, v11, v12, v13, v14, b⟩ := st
+  simp only [Py.get?, cast_succ', mvS6]
+  exact cbsTail_eq self value e1 e2 e3 e4 e6 _ _ _ _ _ v1 v2 v3 v4 v5 v6 v7 v8 v9 v10 v11 v12 v13 v14
+
+theorem cbsMain_eq (self : Code4.Self) (e1 e2 e3 e4 e5 e6 : Nat) (h1 : e1 ≤ 2) (h2 : e2 ≤ 2)
+    (h3 : e3 ≤ 2) (h4 : e4 ≤ 2) (h5 : e5 ≤ 2) (h6 : e6 ≤ 2) :
+    (cbsMain self (Model.V4.mvKey [e1, e2, e3, e4, e5, e6])).toOption.map (fun x => x.base_score) =
+      ((Model.V4.lookupScore [e1, e2, e3, e4, e5, e6]).bind fun value =>
+        mRest self.metrics value e1 e2 e3 e4 e5 e6).map some := by
+  unfold cbsMain Model.V4.lookupScore
+  obtain ⟨c0, c1, c2, c3, c4, c5⟩ := charAt_mvKey e1 e2 e3 e4 e5 e6 h1 h2 h3 h4 h5 h6
+  simp only [c0, c1, c2, c3, c4, c5, ok_bind, int_small _ h1, int_small _ h2, int_small _ h3, int_small _ h4,
+    int_small _ h5, int_small _ h6, Py.getitem]
+  cases lookup (Model.V4.mvKey [e1, e2, e3, e4, e5, e6]) Gen.V4.lookupTable with
+  | none => rfl
+  | some value =>
+    simp only [ok_bind, Option.bind_some]
+    exact cbsRest_eq self value e1 e2 e3 e4 e5 e6 h1 h2 h3 h4 h5 h6
+
+theorem cbsMain_N (self : Code4.Self) (s : Str) (h : 'N' ∈ s) :
+    (cbsMain self s).toOption = none := by
+  unfold cbsMain
+  simp only [Py.getitem, lookup_N s h]
+  rfl
+
+theorem cbsAll_eq (self : Code4.Self) :
+    (cbsAll self).toOption.map (fun x => x.base_score) = (Model.V4.baseScore self.metrics).map some := by
+  rw [baseScore_unfold]
+  unfold cbsAll
+  have hmv : ∃ s, Code4.macroVector self = .ok s ∧
+      (cbsMain self s).toOption.map (fun x => x.base_score) =
+        ((Model.V4.macroVector self.metrics).bind fun mv => (Model.V4.lookupScore mv).bind fun value =>
+          match mv with
+          | [e1, e2, e3, e4, e5, e6] => mRest self.metrics value e1 e2 e3 e4 e5 e6
+          | _ => none).map some := by
+    cases h : Model.V4.macroVector self.metrics with
+    | none =>
+      obtain ⟨s, hs, hN⟩ := macroVector_none self h
+      exact ⟨s, hs, by rw [cbsMain_N self s hN]; rfl⟩
+    | some d =>
+      obtain ⟨e1, e2, e3, e4, e5, e6, rfl, h1, h2, h3, h4, h5, h6⟩ := macroVector_shape _ _ h
+      exact ⟨_, macroVector_eq self _ h, cbsMain_eq self e1 e2 e3 e4 e5 e6 h1 h2 h3 h4 h5 h6⟩
+  obtain ⟨s, hs, hmain⟩ := hmv
+  rw [hs]
+  simp only [ok_bind, List.mapM_cons, List.mapM_nil, m_eq, pure_ok, List.all_cons, List.all_nil,
+    Bool.and_true]
+  split
+  · rfl
+  · exact hmain
+
+end Aux
+
+/-- `compute_base_score()`, for EVERY metric dict: the translated source (binary floats modelled by exact
+    rationals, NaN by `none`) and the model's `baseScore` produce the same score or both raise -/
+theorem compute_base_score_eq (self : Code4.Self) :
+    (Code4.compute_base_score self).toOption.map (fun x => x.base_score) =
+      (Model.V4.baseScore self.metrics).map some := by
+  rw [Aux.cbs_unfold]
+  exact Aux.cbsAll_eq self
 
 end Cvss.Props.CodeTie4
